@@ -291,6 +291,8 @@ def gen_spec(R, *, n_lf=None, hc=False, small=False, kinds=None, vrl=None, rows=
         for what, arg in seq:
             kind = what if what != 'other' else arg
             o = {'kind': kind, 'attrs': {}, 'set_name': tag, 'origin_reference': None}
+            if tag is None and R.random() < 0.12:
+                o['set_name_arg'] = ''          # set_name='' is passed to the call: an empty name is no name (the unnamed set)
             base = {'origin': 'ORG', 'channel': 'CH', 'frame': 'FR'}.get(kind, kind[:3].upper())
             if kind == 'channel' and arg[1] == 0 and arg[0] > 0 and R.random() < 0.4:
                 # a channel of a later frame may reuse the name of a channel of an earlier frame (copy number 1,
@@ -551,6 +553,8 @@ def build(spec):
                 kw[api_keyword(o['kind'], pyname)] = v
             if o.get('set_name') is not None:
                 kw['set_name'] = o['set_name']
+            elif 'set_name_arg' in o:
+                kw['set_name'] = o['set_name_arg']
             if o.get('origin_reference') is not None:
                 kw['origin_reference'] = o['origin_reference']
             if o['kind'] == 'channel':
